@@ -12,7 +12,7 @@ from common import Check, main_wrapper
 
 def main():
     ck = Check("C02", "translation_validation")
-    ck.lean_stage(["VelaVerif.Props.C02"])
+    ck.lean_stage(["VelaVerif.Props.C02", "VelaVerif.Props.C02Addr"])
     # address-generation link, function level: real Tensor methods against Model/TensorAddr.lean, Lean Spec on the real outputs
     fn_evals, fn_tensors, fn_bad, fn_spec = ta_lib.function_level(ck, 1500 if ck.thorough else 220)
     outs, lines, owners, answers = stream_checks.run(ck, "C02", 288, 6000, None, want={"stream": True, "extra": ta_lib.pipeline_extra})
